@@ -15,6 +15,16 @@ CHECKS = {
  "C14": dict(technique="TLA+ spec of version numbering/range rules (Iavl.tla) model-checked; TLC behaviours replayed, every version query 0..latest+2 compared after every step",
    text="Iavl.tla carries first/latest/loaded version, the numbering rule (initial version), overwrite-iff-same-hash, and the error rules of LoadVersion / LoadVersionForOverwriting / DeleteVersionsTo; TLC checks InvRange exhaustively on a bounded instance and generates behaviours weighted to commits without writes, loads of older versions with re-commit (equal and different content), pruning, rollback, import, reopen. After every step the harness queries VersionExists, GetImmutable, GetVersioned, LoadVersion on a fresh handle (which rediscovers the range from the store) for every version from first-2 to latest+2, AvailableVersions, GetLatestVersion, Version, WorkingVersion, and checks SaveVersion numbers and error-ness.",
    note="Trusted: TLC. InitialVersion 0 (unset), 1 and 5; version numbers above latest+2 are not queried."),
+
+ "C08": dict(technique="TLC proves the transcribed range traversal equal to its definition (T4); every iteration interface of the real library compared with that definition on TLC-generated states",
+   text="iterator.go's explicit-stack range traversal is transcribed in IAVLTree.tla (Trav); TLC checks on every tree of a bounded instance and every (start, end, direction, inclusiveness) that it yields exactly RangeOf, the definition the harness uses. On TLC-generated behaviours (uncommitted additions/updates/removals, index on/off per open, older versions, empty trees) every iterator the state offers - tree walk, persisted index, index+uncommitted overlay, IterateRange, IterateRangeInclusive, Iterate - is drained for bound triples drawn from nil, empty, stored keys, gap keys, a prefix and an extension, and checked for the exact sequence, values, Domain, Valid after exhaustion/Close, Error, Close, and the stop position/return value of callbacks. The three implementations are compared with the same definition, hence with each other.",
+   note="Next() is never called on an invalid iterator (the store contract allows a panic there). Bound triples are a seeded sample per state (60 working / 12-40 per version in quick)."),
+ "C11": dict(technique="TLC checks AVL well-formedness and the Fibonacci height bound on the spec trees; real Height/Size/rank lookups compared with spec trees, node reads counted through a counting store",
+   text="WellFormed (BST order, routing keys, height/size fields, |balance| <= 1) and the integer form of h <= 1.4405 log2(n+2) (a tree of height h has at least fib(h+2) leaves) are checked by TLC on every tree of the bounded instances. On insertion-biased TLC behaviours over 12 keys the real Height(), Size(), GetWithIndex and GetByIndex (all keys, gap keys, all ranks and out-of-range ranks) are compared with the spec tree after every step, the numeric bound is evaluated, and a handle with cache size 0 and the index off is observed through a counting storage wrapper: Get/Has/GetWithIndex/GetByIndex read at most 2h+2 nodes, GetProof at most 10h+10, h taken from the spec tree.",
+   note="Performance is observed, not modelled: TLA+ contributes the height. Trees have at most 12 leaves (height <= 5)."),
+ "C15": dict(technique="TLC proves the transcribed diff algorithm equal to the net writes of a version (T6); TraverseStateChanges of the real library compared with the TLC-computed change set for every range; SaveChangeSet is a spec action",
+   text="diff.go's two-iterator merge is transcribed (Changes) and TLC checks on all consecutive version pairs of a bounded instance that it equals NetChanges (keys written in v and present in v with their value, keys of v-1 absent in v; ascending, once per key) and that applying it to v-1 gives v. Each commit step of a generated behaviour carries Changes(pred, new); after every step the harness calls TraverseStateChanges for every range and compares each version whose predecessor is retained. SaveChangeSet is an action of Iavl.tla (applied as one version; removal of a missing key and a dirty tree are errors). At reopen/end the extracted sets are replayed into an empty store and every version's contents - and hashes while TLC marked the history as normal form - are compared.",
+   note="Whether endVersion is inclusive is not judged (doc comment says exclusive, loop is inclusive; the property does not say)."),
 }
 
 NA = {}
